@@ -1,7 +1,9 @@
 #!/bin/bash
-# tools/process_seed.sh <ID> <crate> <demo file> [extra crates]: collect a seeded change, confirm it, run the check against it
+# [SEED_ROOT=/tmp/seed2 SEED_SUFFIX=b] tools/process_seed.sh <ID> <crate> <demo file> [extra crates]:
+# collect a seeded change, confirm it, run the check against it
 ID=$1; CRATE=$2; DEMO=$3; shift 3
-mkdir -p /verif/seeded/$ID
-cp -r /tmp/seed/$ID/seed_out/* /verif/seeded/$ID/
+ROOT=${SEED_ROOT:-/tmp/seed}; SFX=${SEED_SUFFIX:-}
+mkdir -p /verif/seeded/$ID$SFX
+cp -r $ROOT/$ID/seed_out/* /verif/seeded/$ID$SFX/
 python3 /verif/tools/confirm_seed.py $ID $CRATE $DEMO "$@" 2>&1 | grep -E "CONFIRMED|NOT CONFIRMED"
-SELFTEST_SLOT=s python3 /verif/tools/selftest.py /verif/seeded/$ID/patch.diff $ID 2>&1 | grep -E "^(CAUGHT|MISSED|BUILD|ERROR|  )" | head -6
+SELFTEST_SLOT=s python3 /verif/tools/selftest.py /verif/seeded/$ID$SFX/patch.diff $ID 2>&1 | grep -E "^(CAUGHT|MISSED|BUILD|ERROR|  )" | head -${SEED_LINES:-6}
